@@ -60,6 +60,10 @@ type dep struct {
 	data  []byte
 	d     core.Digest
 	where int
+	// goneSeq is the event sequence number after which the blob, present at the
+	// start, is in no origin's cache and not in the blob backend any more (0:
+	// never removed). Judged only for PUTs invoked after it.
+	goneSeq int64
 }
 
 type manifest struct {
@@ -68,9 +72,14 @@ type manifest struct {
 	deps []*dep
 }
 
-func (m *manifest) missing() *dep {
+func (m *manifest) missing() *dep { return m.missingSince(0) }
+
+// missingSince returns a dependency that was in no origin's cache and not in
+// the blob backend during the whole of a call invoked at sequence number seq
+// (seq 0: from the start of the run).
+func (m *manifest) missingSince(seq int64) *dep {
 	for _, x := range m.deps {
-		if x.where == depMissing {
+		if x.where == depMissing || seq > 0 && x.goneSeq > 0 && x.goneSeq < seq {
 			return x
 		}
 	}
@@ -402,11 +411,15 @@ func (w *world) client(id, nOps int, fixed bool) {
 		for a := 0; a < attempts; a++ {
 			t.attempted[m.d.String()] = true
 			from := len(w.hn.Log)
+			callSeq := s.NextSeq()
 			err := cl.Put(t.name, m.d)
 			s.Logf("client %d put tag %d manifest %d attempt %d -> %s", id, t.idx, m.idx, a, errClass(err))
 			if err == nil {
 				s.Probe("put_ok")
-				if x := m.missing(); x != nil {
+				if x := m.missingSince(callSeq); x != nil {
+					if x.where != depMissing {
+						s.Fail("put_succeeded_with_missing_dependency", "PUT %s -> manifest %d (invoked at %d) succeeded although dependency blob %d had been removed from every origin's cache and from the blob backend by %d", t.name, m.idx, callSeq, x.idx, x.goneSeq)
+					}
 					s.Fail("put_succeeded_with_missing_dependency", "PUT %s -> manifest %d succeeded although dependency blob %d is neither in an origin's cache nor in the blob backend", t.name, m.idx, x.idx)
 				}
 				if !t.acked {
@@ -432,6 +445,8 @@ func (w *world) client(id, nOps int, fixed bool) {
 			}
 			if m.missing() != nil {
 				s.Probe("put_rejected_missing_dependency")
+			} else if m.missingSince(callSeq) != nil {
+				s.Probe("put_rejected_vanished_dependency")
 			}
 			simrt.Sleep(time.Duration(1+tp.Draw(5))*time.Second + time.Duration(tp.Draw(500))*ms)
 		}
@@ -583,6 +598,40 @@ func body(s *simrt.Sim, tier string) {
 	if w.fl.outage || w.fl.crashes {
 		chaosDone.Add(1)
 		simrt.Go(func() { defer chaosDone.Done(); w.chaos() })
+	}
+	if s.Tape.Variant%3 == 1 {
+		// a dependency that was there disappears for good: the blob backend's
+		// owner removes it and every origin drops it from its cache
+		var cands []*dep
+		for _, x := range w.deps {
+			if x.where != depMissing {
+				cands = append(cands, x)
+			}
+		}
+		if len(cands) > 0 {
+			x := cands[int(s.Tape.Variant/3)%len(cands)]
+			after := time.Duration(2+(s.Tape.Variant/12)%25) * time.Second
+			wg.Add(1)
+			simrt.Go(func() {
+				defer wg.Done()
+				simrt.Sleep(after)
+				if !w.be.Remove(oc.BlobRoot + "/" + x.d.Hex()) {
+					return
+				}
+				for _, o := range originObjs {
+					o := o
+					s.Wait(s.GoNode(o.Node, "drop", func() { o.CAS.DeleteCacheFile(x.d.Hex()) }))
+				}
+				for _, o := range originObjs {
+					if _, err := o.CAS.GetCacheFileStat(x.d.Hex()); err == nil {
+						return // an origin still (or again) holds it: nothing to judge
+					}
+				}
+				x.goneSeq = s.NextSeq()
+				s.Logf("dependency blob %d removed from the origin cluster and the blob backend (seq %d)", x.idx, x.goneSeq)
+				s.Probe("dependency_vanished")
+			})
+		}
 	}
 	for c := 0; c < nClients; c++ {
 		wg.Add(1)
